@@ -334,9 +334,8 @@ impl<'a> EsopModeler<'a> {
 
     /// Setup main decision variables
     fn setup_vars(&mut self) {
-        self.cubes = Cube::all(self.num_vars())
-            .filter(|c| *c == Cube::one() || c.neg_vars().count() >= 1 || c.pos_vars().count() >= 2)
-            .collect();
+        // All cubes are candidates, including single positive literals (which cost no gate)
+        self.cubes = Cube::all(self.num_vars()).collect();
         self.cube_used = self
             .cubes
             .iter()
